@@ -142,6 +142,10 @@ def run(tier):
     dn = fields.get('dev_nonce')
     r_, p_ = field_path(dn) if dn is not None else (None, None)
     same = len(st) == 1 and bf.cfg.dominates(st[0][0], bb_b) and r_ == ('param', self_) and p_ == ['dev_nonce']
+    if not same and len(st) == 1 and bf.cfg.dominates(st[0][0], bb_b) and dn is not None and st[0][2].rv.k == 'use':
+        # or the request carries the very value that was stored (one local feeds both the field and the request)
+        sv = peel(term_of_operand(bf, st[0][2].rv.ops[0]))
+        same = sv == peel(dn) and sv[0] == 'call'
     res.require(same, 'C11:prepare_buffer:dev_nonce', 'the DevNonce put in the JoinRequest is not the one stored in Otaa.dev_nonce (stores: %d, request field: %s)' % (len(st), term_str(dn) if dn else None),
                 short_site(bf, bb_b), 'SAME-VALUE(dev_nonce sent = dev_nonce remembered)', instance='JoinRequest.dev_nonce is Otaa.dev_nonce, stored once before the request is built')
     res.require(appkey_crypto(term_of_operand(bf, tb.args[2]), lambda root, path: root == ('param', self_) and path == ['network_credentials']),
